@@ -150,7 +150,7 @@ def esl_gev_pdf (x mu lambda alpha : α) : α :=
   if ((Num.fabs (y * alpha)) < 1.0e-12) then
     (lambda * (Num.exp ((-y) - (Num.exp (-y)))))
   else
-    if (ya1 < 0.0) then
+    if (ya1 ≤ 0.0) then
       0.0
     else
       let lya1 := (Num.log ya1)
@@ -163,7 +163,7 @@ def esl_gev_logpdf (x mu lambda alpha : α) : α :=
   if ((Num.fabs (y * alpha)) < 1.0e-12) then
     (((Num.log lambda) - y) - (Num.exp (-y)))
   else
-    if (ya1 < 0.0) then
+    if (ya1 ≤ 0.0) then
       (-Num.inf)
     else
       let lya1 := (Num.log ya1)
